@@ -6,6 +6,6 @@ CONSTANTS
   DocCells = {}
   MaxDocCells = 0
   FixedDoc = TRUE
-  SheetArgs = {"S1", "S2"}
+  SheetArgs = {"S1", "S2", "s1"}
 INVARIANT Dump
 CHECK_DEADLOCK FALSE
